@@ -62,10 +62,17 @@ def to_open_api_3_0(schema: JsonSchema) -> Dict[str, Any]:
             result.setdefault("nullable", True)
         result["type"] = [t for t in result["type"] if t != "null"]
         if len(result["type"]) > 1:
-            result["anyOf"] = [
-                *result.get("anyOf", ()),
-                *({"type": t} for t in result.pop("type")),
-            ]
+            types = [{"type": t} for t in result.pop("type")]
+            if "anyOf" in result:
+                # an anyOf of its own (e.g. given through schema(extra=...)) is another
+                # constraint: both must hold
+                result["allOf"] = [
+                    *result.get("allOf", ()),
+                    {"anyOf": result.pop("anyOf")},
+                    {"anyOf": types},
+                ]
+            else:
+                result["anyOf"] = types
         else:
             result["type"] = result["type"][0]
     # exclusiveMinimum / exclusiveMaximum are boolean modifiers of minimum / maximum
